@@ -1,4 +1,7 @@
-"""Rule bodies shared by C09 (inner join), C10 (outer joins) and C18 (join naming)."""
+"""Rule bodies shared by C09 (inner join), C10 (outer joins), C11 (cardinality) and C18 (join naming).
+
+All structural rules are stated over the semantic JoinModel (joinsx.py) read off the symx event log: they do not
+depend on how the loops, index expressions, helpers or guard clauses are written."""
 from __future__ import annotations
 
 import ast
@@ -7,70 +10,59 @@ from typing import Dict, List, Optional, Set, Tuple
 from ..astutil import Defs, is_range_of, loads, none_test
 from ..core import AnalysisError, attr_chain, kwarg, short, walk_no_nested, walk_stmts
 from ..effects import CACHE_FIELDS, effects_of
-from ..joins import Append, JoinFacts, _callee
+from ..joinsx import NL, NR, TOTAL, ZERO, Emission, JoinModel, lin_add, lin_show
+from ..symx import NONE, Event, callee, const, elements, kw, show, show_conds, subterms
+
+
+def _callee(call: ast.Call) -> Optional[str]:
+    ch = attr_chain(call.func)
+    return ".".join(ch) if ch else None
 
 
 # --------------------------------------------------------------------------- a
-def key_symmetry(ctx, jf: JoinFacts) -> None:
-    f = jf.f
+def key_symmetry(ctx, jm: JoinModel) -> None:
+    f, it = jm.f, jm.it
     problems: List[Tuple[str, ast.AST]] = []
-    # pairs = self._validate_join_keys(other, left_on, right_on)
-    c = jf.pairs_call
-    args = [a.id if isinstance(a, ast.Name) else None for a in c.args]
-    recv = attr_chain(c.func.value)
-    if recv != [jf.p_self] or args != [jf.p_other, jf.p_left_on, jf.p_right_on] or c.keywords:
-        problems.append((f"key pairs are built by `{short(c)}`, expected "
-                         f"{jf.p_self}._validate_join_keys({jf.p_other}, {jf.p_left_on}, {jf.p_right_on})", c))
-    if jf.left_keys is None or jf.right_keys is None:
-        problems.append((f"left/right key lists are not the first/second projection of `{jf.pairs_var}` "
-                         f"(found projections {jf.key_proj})", jf.pairs_stmt))
-    # no other binding of the key lists
-    for nm in (jf.left_keys, jf.right_keys):
-        if nm and len(jf.defs.assigns.get(nm, [])) != 1:
-            problems.append((f"`{nm}` is bound more than once", f.node))
-    ki = jf.key_expr(jf.index_loop)
-    kp = jf.key_expr(jf.probe_loop)
-    if ki is None:
-        problems.append(("index key is not `tuple(col[row] for col in <right keys>)`", jf.index_loop))
-    else:
-        keys, rowvar, st = ki
-        lv = jf.index_loop.target.id if isinstance(jf.index_loop.target, ast.Name) else None
-        if keys != jf.right_keys or rowvar != lv:
-            problems.append((f"index key is built from `{keys}` at row `{rowvar}`; must be the right keys "
-                             f"`{jf.right_keys}` at the index loop variable `{lv}`", st))
-    if kp is None:
-        problems.append(("probe key is not `tuple(col[row] for col in <left keys>)`", jf.probe_loop))
-    else:
-        keys, rowvar, st = kp
-        lv = jf.probe_loop.target.id if isinstance(jf.probe_loop.target, ast.Name) else None
-        if keys != jf.left_keys or rowvar != lv:
-            problems.append((f"probe key is built from `{keys}` at row `{rowvar}`; must be the left keys "
-                             f"`{jf.left_keys}` at the probe loop variable `{lv}`", st))
-    # the key variable probed / stored is the key just built
-    if ki and kp:
-        for loop, (keys, rowvar, st) in ((jf.index_loop, ki), (jf.probe_loop, kp)):
-            kname = st.targets[0].id if isinstance(st.targets[0], ast.Name) else None
-            for n in walk_no_nested(loop):
-                if isinstance(n, ast.Call) and _callee(n) in jf.index_get:
-                    if not (len(n.args) == 1 and isinstance(n.args[0], ast.Name) and n.args[0].id == kname):
-                        problems.append((f"index lookup `{short(n)}` does not use the key built in this iteration `{kname}`", n))
-            rebinds = [s for s in walk_stmts(loop.body) if isinstance(s, (ast.Assign, ast.AugAssign))
-                       and any(isinstance(t, ast.Name) and t.id == kname for t in
-                               (s.targets if isinstance(s, ast.Assign) else [s.target]))]
-            if len(rebinds) != 1:
-                problems.append((f"the key variable `{kname}` is rebound inside the loop", loop))
-        st = jf.index_first_store
-        kname = ki[2].targets[0].id
-        if not (isinstance(st.targets[0].slice, ast.Name) and st.targets[0].slice.id == kname):
-            problems.append((f"index entry is stored under `{short(st.targets[0].slice)}`, not the key `{kname}`", st))
+    pc = jm.pairs
+    want = ("call", ("attr", jm.S, "_validate_join_keys"), (jm.O, ("param", jm.p[2]), ("param", jm.p[3])), ())
+    if pc != want:
+        problems.append((f"key pairs are built by `{jm.sh(pc)}`, expected {jm.sh(want)}", jm.pairs_ev.node))
+    # every consultation / update of the index uses the key of ITS side at ITS loop's row
+    for e in it.events:
+        terms = [e.term] + ([e.value] if e.value is not None else [])
+        for c, _ in e.conds:
+            terms.append(c)
+        for top in terms:
+            for t in subterms(top):
+                k = None
+                if t[0] == "call" and t[1][0] == "attr" and t[1][1] == jm.index and t[1][2] in ("get", "setdefault", "pop", "__contains__") and t[2]:
+                    k = ("arg", t[2][0])
+                elif t[0] == "sub" and t[1] == jm.index:
+                    k = ("arg", t[2])
+                elif t[0] == "cmp" and t[1] == "In" and t[3] == jm.index:
+                    k = ("arg", t[2])
+                if k is None:
+                    continue
+                key = jm.key_of(k[1])
+                if jm.index_loop in e.loops:
+                    if key != ("R", ("idx", jm.index_loop)):
+                        problems.append((f"in the index loop the index is addressed by `{jm.sh(k[1])}`, not by the RIGHT keys of the "
+                                         f"row being indexed", e.node))
+                elif jm.probe_loop in e.loops:
+                    if key != ("L", ("idx", jm.probe_loop)):
+                        problems.append((f"in the probe loop the index is addressed by `{jm.sh(k[1])}`, not by the LEFT keys of the "
+                                         f"row being probed", e.node))
+                else:
+                    problems.append((f"the index is addressed outside the index and probe loops (`{jm.sh(t)}`)", e.node))
     # _validate_join_keys returns (left_col, right_col) pairs in that order
     problems += _validate_join_keys_shape(ctx)
     # _resolve_column delegates string specs to __getitem__
     problems += _resolve_column_shape(ctx)
-    ok = not problems
-    ctx.ob("a.key-symmetry", f, "keys", ok, f"{jf.variant}: key pairing/projection/probing consistent",
+    seen = set()
+    problems = [p for p in problems if not (p[0] in seen or seen.add(p[0]))]
+    ctx.ob("a.key-symmetry", f, "keys", not problems, f"{jm.variant}: key pairing/projection/probing consistent",
            problems[0][1] if problems else f.node,
-           message=f"{jf.variant}: " + "; ".join(p for p, _ in problems))
+           message=f"{jm.variant}: " + "; ".join(p for p, _ in problems))
 
 
 def _validate_join_keys_shape(ctx) -> List[Tuple[str, ast.AST]]:
@@ -145,260 +137,252 @@ def _resolve_column_shape(ctx) -> List[Tuple[str, ast.AST]]:
 
 
 # --------------------------------------------------------------------------- b
-def loops(ctx, jf: JoinFacts) -> None:
-    f = jf.f
+def _is_row_scan(jm: JoinModel, L: int, side: str) -> bool:
+    lp = jm.it.loops[L]
+    return lp.range is not None and lp.range[0] == const(0) and lp.range[2] == const(1) and jm.rows_of(lp.range[1]) == side
+
+
+def loops(ctx, jm: JoinModel) -> None:
+    f, it = jm.f, jm.it
     problems: List[Tuple[str, ast.AST]] = []
-    if jf.loop_range_of(jf.index_loop) != "RIGHT-ROWS":
-        problems.append((f"index loop ranges over `{short(jf.index_loop.iter)}`, not range(len({jf.p_other}))", jf.index_loop))
-    if jf.loop_range_of(jf.probe_loop) != "LEFT-ROWS":
-        problems.append((f"probe loop ranges over `{short(jf.probe_loop.iter)}`, not range(len({jf.p_self}))", jf.probe_loop))
-    # the index loop is a top-level statement that precedes the probe loop (checked by extraction order)
-    top = jf.top
-    if top.index(jf.index_loop) > top.index(jf.probe_loop):
-        problems.append(("the probe loop runs before the index is built", jf.probe_loop))
-    # bucket discipline inside the index loop
-    lv = jf.index_loop.target.id if isinstance(jf.index_loop.target, ast.Name) else None
-    st = jf.index_first_store
-    if not (isinstance(st.value.elts[0], ast.Name) and st.value.elts[0].id == lv):
-        problems.append((f"a new bucket starts with `{short(st.value.elts[0])}`, not the row index `{lv}`", st))
-    buckets = jf.bucket_vars()
-    n_append = 0
-    for n in walk_no_nested(f.node):
-        # mutations of the index
-        if isinstance(n, ast.Call) and isinstance(n.func, ast.Attribute):
-            ch = attr_chain(n.func.value)
-            if ch == [jf.index_var] and n.func.attr not in ("get", "items", "keys", "values", "__contains__"):
-                problems.append((f"the index is modified by .{n.func.attr}()", n))
-            if ch and len(ch) == 1 and ch[0] in buckets:
-                if n.func.attr == "append":
-                    inside = any(x is n for x in walk_no_nested(jf.index_loop))
-                    if not inside:
-                        problems.append(("a bucket is appended to outside the index loop", n))
-                    elif not (len(n.args) == 1 and isinstance(n.args[0], ast.Name) and n.args[0].id == lv):
-                        problems.append((f"bucket receives `{short(n.args[0])}`, not the row index `{lv}`", n))
-                    else:
-                        n_append += 1
-                elif n.func.attr in ("insert", "sort", "reverse", "pop", "remove", "extend", "clear"):
-                    problems.append((f"bucket order/content is changed by .{n.func.attr}() (right-minor order is lost)", n))
-        if isinstance(n, ast.Call) and isinstance(n.func, ast.Name) and n.func.id in ("sorted", "reversed", "set") \
-                and n.args and isinstance(n.args[0], ast.Name) and n.args[0].id in buckets:
-            problems.append((f"a bucket is passed through {n.func.id}() before emission (right-minor order is lost)", n))
-    if n_append != 1:
-        problems.append((f"expected exactly one `bucket.append(row)` in the index loop, found {n_append}", jf.index_loop))
-    for s in walk_stmts(f.body):
-        tg = s.targets if isinstance(s, ast.Assign) else [s.target] if isinstance(s, (ast.AugAssign,)) else \
-            s.targets if isinstance(s, ast.Delete) else []
-        for t in tg:
-            if isinstance(t, ast.Subscript) and isinstance(t.value, ast.Name) and t.value.id == jf.index_var \
-                    and s is not jf.index_first_store:
-                problems.append(("the index is written outside the first-sight store", s))
-    # every right row is indexed: nothing in the index loop can skip or stop
-    for s_ in walk_stmts(jf.index_loop.body):
-        if isinstance(s_, (ast.Continue, ast.Break, ast.Return)):
-            problems.append((f"`{type(s_).__name__.lower()}` in the index loop (line {s_.lineno}): some right rows would not be indexed "
-                             f"(e.g. keys containing None) although they are key-equal to left rows", s_))
-    # first-sight test: `bucket is None` -> store, else append
-    fs_guards = _guards_of(jf, jf.index_first_store)
-    okfs = False
-    for t, pol in fs_guards:
-        nt = none_test(t)
-        if nt and nt[0] in buckets and ((nt[1] and pol) or (not nt[1] and not pol)):
-            okfs = True
-    if not okfs:
-        problems.append(("a new bucket is not created exactly when the key has no bucket yet (`bucket is None`)", jf.index_first_store))
-    # emission iterates buckets directly
-    for s in walk_stmts(jf.probe_loop.body):
-        if isinstance(s, ast.For) and loads(s.iter) & buckets:
-            if not (isinstance(s.iter, ast.Name) and s.iter.id in buckets):
-                problems.append((f"matched rows are emitted over `{short(s.iter)}`, not over the bucket in stored order", s))
-    ctx.ob("b.loops", f, "loops", not problems, f"{jf.variant}: index over all right rows, probe over all left rows, "
+    il, pl = it.loops[jm.index_loop], it.loops[jm.probe_loop]
+    if not _is_row_scan(jm, il.id, "R") or il.kind != "for":
+        problems.append((f"index loop ranges over `{jm.sh(il.iter)}`, not range(len({jm.p[1]}))", il.node))
+    if not _is_row_scan(jm, pl.id, "L") or pl.kind != "for":
+        problems.append((f"probe loop ranges over `{jm.sh(pl.iter)}`, not range(len({jm.p[0]}))", pl.node))
+    if il.parents or pl.parents:
+        problems.append(("the index / probe loop is nested in another loop", il.node if il.parents else pl.node))
+    ie = jm.index_events
+    probe_events = jm.events_in(pl.id)
+    if ie and probe_events and max(e.seq for e in ie) > min(e.seq for e in probe_events):
+        problems.append(("the probe loop runs before the index is complete", pl.node))
+    row = ("idx", il.id)
+    key = None
+    stores, appends = [], []
+    for e in ie:
+        if il.id not in e.loops:
+            problems.append((f"the index or a bucket is modified outside the index loop (`{jm.sh(e.term)}`)", e.node))
+            continue
+        if e.kind == "store":
+            stores.append(e)
+        elif e.kind == "call" and e.term[1][2] == "append" and jm._is_bucket_term(e.term[1][1]):
+            appends.append(e)
+        elif e.kind == "call" and e.term[1][1] == jm.index and e.term[1][2] == "setdefault":
+            continue            # the receiver of the .append checked below
+        else:
+            m = e.term[1][2] if e.kind == "call" else e.kind
+            problems.append((f"bucket order/content or the index is changed by `{m}` (right-minor order is lost)", e.node))
+    setdefault_form = [a for a in appends if a.term[1][1][0] == "call" and a.term[1][1][1][2] == "setdefault"]
+    if setdefault_form and not stores:
+        if len(appends) != 1:
+            problems.append((f"expected exactly one bucket.append(row) in the index loop, found {len(appends)}", il.node))
+        a = appends[0]
+        sd = a.term[1][1]
+        dflt = sd[2][1] if len(sd[2]) == 2 else None
+        okd = dflt is not None and dflt[0] == "obj" and it.objs[dflt[1]].kind == "list" and not it.objs[dflt[1]].init
+        if not okd:
+            problems.append(("setdefault does not start a missing bucket as an empty list", a.node))
+        if a.term[2] != (row,):
+            problems.append((f"bucket receives `{jm.sh(a.term[2][0]) if a.term[2] else '?'}`, not the row index", a.node))
+        if jm.conds_inside(a, il.id):
+            problems.append((f"a right row is indexed only under `{show_conds(jm.conds_inside(a, il.id), it)[:80]}`: some right rows would "
+                             f"not be indexed (e.g. keys containing None) although they are key-equal to left rows", a.node))
+    else:
+        if len(stores) != 1 or len(appends) != 1:
+            problems.append((f"expected one first-sight store `index[key] = [row]` and one `bucket.append(row)` in the index loop, "
+                             f"found {len(stores)} store(s) / {len(appends)} append(s)", il.node))
+        else:
+            st_, ap = stores[0], appends[0]
+            v = st_.value
+            if not (v[0] == "obj" and it.objs[v[1]].kind == "list" and it.objs[v[1]].init == (row,)):
+                problems.append((f"a new bucket starts as `{jm.sh(v)}`, not [row index]", st_.node))
+            if ap.term[2] != (row,):
+                problems.append((f"bucket receives `{jm.sh(ap.term[2][0]) if ap.term[2] else '?'}`, not the row index", ap.node))
+            c1, c2 = jm.conds_inside(st_, il.id), jm.conds_inside(ap, il.id)
+            okfs = len(c1) == 1 and len(c2) == 1 and c1[0][0] == c2[0][0] and c1[0][1] != c2[0][1] and _first_sight(jm, c1[0])
+            if not okfs:
+                extra = [c for c in c1 if not _first_sight(jm, c)] + [c for c in c2 if not _first_sight(jm, (c[0], not c[1]))]
+                if extra:
+                    problems.append((f"a right row is indexed only under `{show_conds(extra, it)[:90]}`: some right rows would not be "
+                                     f"indexed (e.g. keys containing None) although they are key-equal to left rows", st_.node))
+                else:
+                    problems.append((f"a new bucket is not created exactly when the key has no bucket yet: store under "
+                                     f"`{show_conds(c1, it)[:70]}`, append under `{show_conds(c2, it)[:70]}`", st_.node))
+    if il.breaks or il.returns:
+        problems.append(("break/return in the index loop: some right rows would not be indexed", il.node))
+    # matched rows are emitted over the bucket itself, in stored order
+    for lp in jm.bucket_wrapped:
+        problems.append((f"matched rows are emitted over `{jm.sh(lp.iter)}`, not over the bucket in stored order "
+                         f"(right-minor order is lost)", lp.node))
+    for e in it.events:
+        if e.kind == "call" and callee(e.term) in ("sorted", "reversed", "set", "frozenset") and e.term[2] and e.term[2][0] == jm.bucket:
+            problems.append((f"a bucket is passed through {callee(e.term)}() before emission (right-minor order is lost)", e.node))
+    seen = set()
+    problems = [p for p in problems if not (p[0] in seen or seen.add(p[0]))]
+    ctx.ob("b.loops", f, "loops", not problems, f"{jm.variant}: index over all right rows, probe over all left rows, "
            f"buckets ascending and emitted in stored order", problems[0][1] if problems else f.node,
-           message=f"{jf.variant}: " + "; ".join(p for p, _ in problems))
+           message=f"{jm.variant}: " + "; ".join(p for p, _ in problems))
 
 
-def _guards_of(jf: JoinFacts, target: ast.stmt):
-    from .c11 import _guards
-    return _guards(jf, target)
+def _first_sight(jm: JoinModel, c) -> bool:
+    """Is c (term, polarity) the statement `this key has no bucket yet` for the key of the row being indexed?"""
+    t, pol = c
+    key_ok = lambda k: jm.key_of(k) == ("R", ("idx", jm.index_loop))
+    if t[0] == "cmp" and t[1] == "Is" and t[3] == NONE and pol:
+        b = t[2]
+        return b[0] == "call" and b[1] == ("attr", jm.index, "get") and len(b[2]) == 1 and key_ok(b[2][0])
+    if t[0] == "cmp" and t[1] == "In" and t[3] == jm.index and not pol:
+        return key_ok(t[2])
+    if t[0] == "call" and t[1] == ("attr", jm.index, "get") and len(t[2]) == 1 and not pol:
+        return key_ok(t[2][0])      # buckets are never empty
+    return False
 
 
 # --------------------------------------------------------------------------- c
-def buffers(ctx, jf: JoinFacts, want_contexts=None, rule: str = "c.buffers") -> None:
-    f = jf.f
+def buffers(ctx, jm: JoinModel, want_contexts=None, rule: str = "c.buffers") -> None:
+    f, it = jm.f, jm.it
     problems: List[Tuple[str, ast.AST]] = []
-    # buffer count
-    comp = jf.result_data_comp
-    r = is_range_of(comp.generators[0].iter) if len(comp.generators) == 1 else None
-    rr = jf.defs.resolve(r) if r is not None else None
-    okn = False
-    if isinstance(rr, ast.BinOp) and isinstance(rr.op, ast.Add) and isinstance(rr.left, ast.Name) and isinstance(rr.right, ast.Name):
-        okn = (rr.left.id in jf.n_left_cols and rr.right.id in jf.n_right_cols) or \
-              (rr.right.id in jf.n_left_cols and rr.left.id in jf.n_right_cols)
-    if not okn:
-        problems.append((f"result buffers are sized `{short(rr) if rr is not None else '?'}`, expected n_left_cols + n_right_cols", comp))
-    apps = jf.appends()
-    if not apps:
+    if jm.T != TOTAL:
+        problems.append((f"result buffers are sized `{lin_show(jm.T)}`, expected n_left_cols + n_right_cols", jm.RD_ev.node))
+    ems = jm.emissions()
+    if not ems:
         problems.append(("no append into the result buffers found", f.node))
-    groups: Dict[Tuple[str, int], List[Append]] = {}
-    for a in apps:
+    groups: Dict[Tuple[str, Optional[int]], List[Emission]] = {}
+    for a in ems:
         if a.context == "?":
-            problems.append((f"result rows are emitted outside the probe loop / sweep (`{short(a.node, 60)}`): "
-                             f"output order is no longer left-major", a.node))
+            problems.append((f"result rows are emitted outside the matched / unmatched-left / sweep blocks (`{jm.sh(a.ev.term)[:70]}` under "
+                             f"`{show_conds(a.extra, it)[:60]}`): output is no longer one row per pair in left-major order", a.node))
             continue
-        row_loop = _emission_scope(jf, a)
-        groups.setdefault((a.context, id(row_loop)), []).append(a)
-        if a.buf_side == "?":
-            problems.append((f"buffer index `{a.buf_index}` is neither a left column index nor n_left_cols + right offset", a.node))
-        if a.context == "matched":
-            want = f"{a.buf_side}-ROW"
-            if a.value_kind != want:
-                problems.append((f"{a.buf_side} buffer receives {a.value_kind} ({a.value_detail}); must receive the "
-                                 f"{a.buf_side.lower()} row's value of the same column", a.node))
-            if a.loop_domain != f"{a.buf_side}-COLS":
-                problems.append((f"{a.buf_side} buffers are filled in a loop over {a.loop_domain}", a.node))
+        groups.setdefault((a.context, a.row_loop), []).append(a)
+        if a.block == "?":
+            problems.append((f"buffers [{lin_show(a.start)} .. +{lin_show(a.count)}) written per emitted row are neither the LEFT block "
+                             f"[0, n_left) nor the RIGHT block [n_left, n_left + n_right): {a.value_detail}", a.node))
+        if a.context == "matched" and a.block != "?":
+            if a.value != f"{a.block}-ROW":
+                problems.append((f"{a.block} buffers receive {a.value} ({a.value_detail}); must receive the "
+                                 f"{a.block.lower()} row's value of the same column", a.node))
+            if not a.depth_ok:
+                problems.append(("the per-column fill is not a direct child of the bucket loop (once per matched pair)", a.node))
+            if a.extra:
+                problems.append((f"append inside the bucket loop is conditional on `{show_conds(a.extra, it)[:70]}`", a.node))
     for (context, _), lst in groups.items():
-        sides = sorted(a.buf_side for a in lst)
+        sides = sorted(a.block for a in lst)
         if sides != ["LEFT", "RIGHT"]:
             problems.append((f"an emitted row in the {context} block writes buffer blocks {sides}; every emitted row must write "
                              f"each LEFT and each RIGHT column exactly once", lst[0].node))
     ctxs = {c for c, _ in groups}
     if want_contexts is not None and not set(want_contexts) <= ctxs:
         problems.append((f"emission blocks found: {sorted(ctxs)}, expected {list(want_contexts)}", f.node))
-    # in the matched block the per-column loops are direct children of the bucket loop (once per bucket element)
-    for a in apps:
-        if a.context == "matched":
-            loops_ = [p for p in a.path if isinstance(p, ast.For)]
-            conds = [p for p in a.path if isinstance(p, tuple)]
-            bucket_loop = next((p for p in loops_ if isinstance(p.iter, ast.Name) and jf._is_bucket(p.iter.id)), None)
-            if bucket_loop is None:
-                continue
-            inner = loops_[loops_.index(bucket_loop) + 1:]
-            if len(inner) != 1:
-                problems.append((f"append is nested in {len(inner)} loops below the bucket loop (expected the per-column loop only)", a.node))
-            for pol, ifst in conds:
-                if any(x is ifst for x in walk_stmts(bucket_loop.body)):
-                    problems.append((f"append inside the bucket loop is conditional on `{short(ifst.test, 50)}`", a.node))
+    if want_contexts is not None and ctxs - set(want_contexts):
+        problems.append((f"unexpected emission blocks {sorted(ctxs - set(want_contexts))}", f.node))
+    seen = set()
+    problems = [p for p in problems if not (p[0] in seen or seen.add(p[0]))]
     ctx.ob(rule, f, "buffers", not problems,
-           f"{jf.variant}: {len(apps)} append site(s) in blocks {sorted(ctxs)} obey LEFT<->left-row / RIGHT<->right-row",
-           problems[0][1] if problems else f.node, message=f"{jf.variant}: " + "; ".join(p for p, _ in problems))
+           f"{jm.variant}: {len(ems)} append site(s) in blocks {sorted(ctxs)} obey LEFT<->left-row / RIGHT<->right-row",
+           problems[0][1] if problems else f.node, message=f"{jm.variant}: " + "; ".join(p for p, _ in problems))
 
 
-def _emission_scope(jf: JoinFacts, a: Append):
-    """The statement list owner that corresponds to ONE emitted row."""
-    loops_ = [p for p in a.path if isinstance(p, ast.For)]
-    if a.context == "matched":
-        for p in loops_:
-            if isinstance(p.iter, ast.Name) and jf._is_bucket(p.iter.id):
-                return p
-    if a.context == "unmatched-left":
-        return jf.probe_loop
-    if a.context == "sweep":
-        return jf.sweep_loop
-    return None
+def _probe_conds(jm: JoinModel, a: Emission) -> Tuple:
+    """Conditions, established inside the probe loop, under which emission `a` happens (the context's own guard included)."""
+    it = jm.it
+    base = len(it.loops[jm.probe_loop].conds)
+    return tuple(a.ev.conds[base:])
 
 
 # --------------------------------------------------------------------------- d
-def inner_unmatched(ctx, jf: JoinFacts) -> None:
-    f = jf.f
+def inner_unmatched(ctx, jm: JoinModel) -> None:
+    f, it = jm.f, jm.it
     problems: List[Tuple[str, ast.AST]] = []
-    buckets = jf.bucket_vars()
-    conts = [s for s in walk_stmts(jf.probe_loop.body) if isinstance(s, (ast.Continue, ast.Break))]
-    rets = [s for s in walk_stmts(jf.probe_loop.body) if isinstance(s, ast.Return)]
-    for s in rets:
-        problems.append(("the probe loop can return early", s))
-    for s in conts:
-        if isinstance(s, ast.Break):
-            problems.append(("the probe loop can stop early (break): later left rows are dropped", s))
+    pl = it.loops[jm.probe_loop]
+    if pl.returns:
+        problems.append(("the probe loop can return early", pl.node))
+    if pl.breaks:
+        problems.append(("the probe loop can stop early (break): later left rows are dropped", pl.node))
+    if len(jm.matched_loops) != 1:
+        problems.append((f"expected one emission loop over the bucket, found {len(jm.matched_loops)}", pl.node))
+    for a in jm.emissions():
+        if a.context != "matched":
             continue
-        g = _guards_of(jf, s)
-        if len(g) == 1 and g[0][1] and isinstance(g[0][0], ast.UnaryOp) and isinstance(g[0][0].op, ast.Not) \
-                and isinstance(g[0][0].operand, ast.Name) and g[0][0].operand.id in buckets:
-            continue
-        if len(g) == 1 and g[0][1]:
-            nt = none_test(g[0][0])
-            if nt and nt[0] in buckets and nt[1]:
-                continue
-        problems.append((f"a left row is skipped under `{' and '.join(short(t, 40) for t, _ in g)}`; only a key without "
-                         f"bucket may be skipped", s))
-    # the bucket loop must be reached whenever the bucket is non-empty: it is a direct child of the probe loop body
-    # (or of `if matches:`)
-    bl = [s for s in walk_stmts(jf.probe_loop.body) if isinstance(s, ast.For) and isinstance(s.iter, ast.Name)
-          and s.iter.id in buckets]
-    if len(bl) != 1:
-        problems.append((f"expected one emission loop over the bucket, found {len(bl)}", jf.probe_loop))
-    else:
-        g = _guards_of(jf, bl[0])
-        for t, pol in g:
-            if not (isinstance(t, ast.Name) and t.id in buckets and pol):
-                problems.append((f"emission of matched pairs is conditional on `{short(t, 50)}`", bl[0]))
+        for c in _probe_conds(jm, a):
+            if not jm.is_bucket_nonempty_test(c):
+                problems.append((f"a left row is skipped / matched pairs are emitted only under `{show_conds([c], it)[:80]}`; only a key "
+                                 f"without bucket may be skipped", a.node))
+    seen = set()
+    problems = [p for p in problems if not (p[0] in seen or seen.add(p[0]))]
     ctx.ob("d.unmatched", f, "skip-policy", not problems, "inner_join skips exactly the left rows whose key has no bucket",
            problems[0][1] if problems else f.node, message="inner_join: " + "; ".join(p for p, _ in problems))
 
 
 # --------------------------------------------------------------------------- e
-def wrap(ctx, jf: JoinFacts, rule: str = "e.wrap") -> None:
-    f = jf.f
+def wrap(ctx, jm: JoinModel, rule: str = "e.wrap") -> None:
+    f, it = jm.f, jm.it
     problems: List[Tuple[str, ast.AST]] = []
-    rets = [s for s in jf.top if isinstance(s, ast.Return)]
-    final = rets[-1] if rets else None
-    if final is None or not (isinstance(final.value, ast.Call) and isinstance(final.value.func, ast.Name)
-                             and final.value.func.id == "Table" and len(final.value.args) == 1
-                             and isinstance(final.value.args[0], ast.Name) and not final.value.keywords):
-        ctx.ob(rule, f, "wrap", False, "final return is not Table(<result columns>)", final or f.node,
-               message=f"{jf.variant}: final return is not Table(<result columns>)")
+    rets = [e for e in it.events if e.kind == "return" and e.depth == 0]
+    final = max(rets, key=lambda e: e.seq) if rets else None
+    t = final.term if final is not None else None
+    if t is None or not (t[0] == "call" and t[1] == ("name", "Table") and len(t[2]) == 1 and not t[3] and t[2][0][0] == "obj"):
+        ctx.ob(rule, f, "wrap", False, "final return is not Table(<result columns>)", final.node if final else f.node,
+               message=f"{jm.variant}: final return is not Table(<list of result columns>) (`{jm.sh(t) if t else '?'}`)")
         return
-    rc = final.value.args[0].id
-    wraps = []   # (side, loop, call)
-    for st in jf.top:
-        if isinstance(st, ast.For):
-            for n in walk_no_nested(st):
-                if isinstance(n, ast.Call) and attr_chain(n.func) == [rc, "append"]:
-                    wraps.append((st, n))
-    for n in walk_no_nested(f.node):
-        if isinstance(n, ast.Call) and isinstance(n.func, ast.Attribute) and attr_chain(n.func.value) == [rc] \
-                and n.func.attr != "append":
-            problems.append((f"result column list is modified by .{n.func.attr}()", n))
-    sides = []
-    for loop, call in wraps:
-        it = loop.iter
-        if not (isinstance(it, ast.Call) and isinstance(it.func, ast.Name) and it.func.id == "enumerate"
-                and len(it.args) == 1 and isinstance(it.args[0], ast.Name) and isinstance(loop.target, ast.Tuple)
-                and len(loop.target.elts) == 2 and all(isinstance(e, ast.Name) for e in loop.target.elts)):
-            problems.append((f"result columns are wrapped in a loop over `{short(it)}`", loop))
+    rc = t[2][0]
+    o = it.objs[rc[1]]
+    if o.init:
+        problems.append(("the result column list does not start empty", o.node))
+    segs = []
+    for e in it.events:
+        if e.kind == "call" and e.term[1][0] == "attr" and e.term[1][1] == rc and e.term[1][2] != "append":
+            problems.append((f"result column list is modified by .{e.term[1][2]}()", e.node))
+    for e in elements(it, rc):
+        v = e.value if e.kind == "elem" else (e.term[2][0] if e.kind == "call" and len(e.term[2]) == 1 else None)
+        if e.kind == "store" or v is None:
+            problems.append(("result column list is written by index", e.node))
             continue
-        dom = it.args[0].id
-        side = "LEFT" if dom in jf.left_cols else "RIGHT" if dom in jf.right_cols else "?"
-        sides.append(side)
-        ivar, cvar = loop.target.elts[0].id, loop.target.elts[1].id
-        v = call.args[0] if call.args else None
-        v = Defs(f).resolve(v) if isinstance(v, ast.Name) else v
-        if not (isinstance(v, ast.Call) and isinstance(v.func, ast.Name) and v.func.id == "Vector"):
-            problems.append((f"{side} result column is `{short(v) if v else '?'}`, not a Vector(...) over its buffer", call))
+        extra = e.conds[len(o.conds):]
+        if extra:
+            problems.append((f"a result column is added only under `{show_conds(extra, it)[:60]}`", e.node))
+        if not (v[0] == "call" and v[1] == ("name", "Vector")):
+            problems.append((f"a result column is `{jm.sh(v)}`, not a Vector(...) over its buffer", e.node))
             continue
-        data = v.args[0] if v.args else kwarg(v, "initial")
-        d2 = jf.defs
-        # data may be bound to a local inside the loop body: resolve names assigned in this loop
-        if isinstance(data, ast.Name):
-            for s in loop.body:
-                if isinstance(s, ast.Assign) and isinstance(s.targets[0], ast.Name) and s.targets[0].id == data.id:
-                    data = s.value
-        okd = isinstance(data, ast.Subscript) and isinstance(data.value, ast.Name) and data.value.id == jf.result_data \
-            and jf._buf_side(data.slice, ivar) == side
-        if not okd:
-            problems.append((f"{side} result column wraps `{short(data) if data is not None else '?'}`, not "
-                             f"{jf.result_data}[its own buffer index]", call))
-        nm = kwarg(v, "name")
-        if nm is None and len(v.args) >= 3:
-            nm = v.args[2]
-        if not (nm is not None and attr_chain(nm) == [cvar, "_name"]):
-            problems.append((f"{side} result column is named `{short(nm) if nm is not None else 'nothing'}`, not the source "
-                             f"column's stored name `{cvar}._name`", call))
-        if kwarg(v, "dtype") is not None or len(v.args) >= 2:
-            problems.append((f"{side} result column is given an explicit dtype `{short(kwarg(v, 'dtype') or v.args[1])}`; "
-                             f"join results must be typed by inference over their values (None padding!)", call))
-    if sides != ["LEFT", "RIGHT"]:
-        problems.append((f"result columns are wrapped in order {sides}, expected all LEFT then all RIGHT", final))
-    ctx.ob(rule, f, "wrap", not problems, f"{jf.variant}: columns wrapped left-then-right under source names, dtype inferred",
-           problems[0][1] if problems else final, message=f"{jf.variant}: " + "; ".join(p for p, _ in problems))
+        data = v[2][0] if v[2] else kw(v, "initial")
+        nm = kw(v, "name") if kw(v, "name") is not None else (v[2][2] if len(v[2]) >= 3 else None)
+        dt = kw(v, "dtype") if kw(v, "dtype") is not None else (v[2][1] if len(v[2]) >= 2 else None)
+        b = jm.bufelem(data) if data is not None else None
+        if b is None or b[0] != "buf" or b[1] is None or b[2] is None or b[2] not in e.loops:
+            problems.append((f"a result column wraps `{jm.sh(data) if data is not None else '?'}`, not its own result buffer", e.node))
+            continue
+        L = b[2]
+        cnt = jm.count(L)
+        sides = None
+        if nm is not None and nm[0] == "attr" and nm[2] == "_name" and nm[1][0] == "elem" and nm[1][2] == L:
+            sides = jm.colseq(nm[1][1])
+        if sides is None:
+            problems.append((f"a result column is named `{jm.sh(nm) if nm is not None else 'nothing'}`, not the stored name of the source "
+                             f"column at the same position", e.node))
+            continue
+        if dt is not None:
+            problems.append((f"a result column is given an explicit dtype `{jm.sh(dt)}`; join results must be typed by inference over "
+                             f"their values (None padding!)", e.node))
+        segs.append((b[1], cnt, sides, e))
+    pos = ZERO
+    order: List[str] = []
+    for start, cnt, sides, e in segs:
+        want = ZERO
+        for sd in sides:
+            want = lin_add(want, NL if sd == "L" else NR)
+        if start != pos:
+            problems.append((f"result columns {sides} wrap buffers from position {lin_show(start)}, expected {lin_show(pos)}: buffer i must "
+                             f"become result column i", e.node))
+        if cnt != want:
+            problems.append((f"{lin_show(cnt)} buffers are wrapped for the {sides} source columns", e.node))
+        pos = lin_add(start, cnt) if cnt is not None else None
+        order += sides
+    if order != ["L", "R"] or pos != TOTAL:
+        problems.append((f"result columns are wrapped in order {order} up to position {lin_show(pos)}, expected all LEFT then all RIGHT "
+                         f"columns over all n_left + n_right buffers", final.node))
+    seen = set()
+    problems = [p for p in problems if not (p[0] in seen or seen.add(p[0]))]
+    ctx.ob(rule, f, "wrap", not problems, f"{jm.variant}: columns wrapped left-then-right under source names, dtype inferred",
+           problems[0][1] if problems else final.node, message=f"{jm.variant}: " + "; ".join(p for p, _ in problems))
 
 
 # --------------------------------------------------------------------------- f
@@ -448,7 +432,7 @@ def determinism_of_function(prog, f) -> List[Tuple[str, ast.AST]]:
     return problems
 
 
-def determinism(ctx, jf: JoinFacts, rule: str = "f.determinism") -> None:
+def determinism(ctx, jf, rule: str = "f.determinism") -> None:
     fns = [jf.f, ctx.prog.func("table.Table._validate_join_keys"),
            ctx.prog.func("table.Table._validate_key_tuple_hashable"), ctx.prog.func("table.Table._resolve_column")]
     problems = []
@@ -501,198 +485,189 @@ def _canon(stmts: List[ast.stmt], drop=lambda s: False) -> str:
     return "\n".join(out)
 
 
-def matched_block(jf: JoinFacts) -> Optional[ast.For]:
-    buckets = jf.bucket_vars()
-    for s in walk_stmts(jf.probe_loop.body):
-        if isinstance(s, ast.For) and isinstance(s.iter, ast.Name) and s.iter.id in buckets:
-            return s
-    return None
+_PURE_ITER = {"enumerate", "zip", "range", "len", "iter", "reversed"}
 
 
-def matched_facts(jf: JoinFacts):
-    """Fact tuple of the matched-pair emission block (independent of spelling and append idiom)."""
-    mb = matched_block(jf)
-    if mb is None:
+def matched_set_add(jm: JoinModel, e: Event) -> bool:
+    """<some set>.add(<the bucket element of this pair>) """
+    t = e.term
+    return e.kind == "call" and t[1][0] == "attr" and t[1][2] == "add" and t[1][1][0] == "obj" and jm.it.objs[t[1][1][1]].kind == "set" \
+        and len(t[2]) == 1 and t[2][0][0] == "elem" and t[2][0][1] == jm.bucket and t[2][0][2] in jm.matched_loops
+
+
+def matched_facts(jm: JoinModel):
+    """Fact tuple of the matched-pair emission (independent of spelling, loop and append idiom)."""
+    if not jm.matched_loops:
         return None
-    apps = [a for a in jf.appends() if a.context == "matched"]
-    facts = sorted((a.buf_side, a.value_kind, a.loop_domain,
-                    len([p for p in a.path if isinstance(p, ast.For)]),
-                    len([p for p in a.path if isinstance(p, tuple)
-                         and any(x is p[1] for x in walk_stmts(mb.body))])) for a in apps)
-    # statements of the block that are neither per-column loops, nor `base = n_left_cols`, nor matched-set bookkeeping
+    ems = [a for a in jm.emissions() if a.context == "matched"]
+    facts = sorted((a.block, a.value, a.depth_ok, show_conds(a.extra, jm.it)) for a in ems)
+    em_ids = {id(a.ev) for a in ems}
     other = 0
-    for s in mb.body:
-        if isinstance(s, ast.For):
-            continue
-        if isinstance(s, ast.Assign) and isinstance(s.value, ast.Name) and s.value.id in jf.n_left_cols:
-            continue
-        if isinstance(s, ast.Expr) and isinstance(s.value, ast.Call) and len(s.value.args) == 1 \
-                and isinstance(s.value.args[0], ast.Name) and isinstance(mb.target, ast.Name) \
-                and s.value.args[0].id == mb.target.id:
-            continue      # matched_right_add(right_idx)
-        other += 1
-    loops_ = [short(s.iter, 40).replace(x, "COLS") for s in mb.body if isinstance(s, ast.For)
-              for x in [s.iter.args[0].id if (isinstance(s.iter, ast.Call) and s.iter.args and isinstance(s.iter.args[0], ast.Name)) else "?"]]
-    return {"appends": facts, "other_statements": other, "n_column_loops": len(loops_)}
+    for L in jm.matched_loops:
+        for e in jm.events_in(L):
+            if id(e) in em_ids or e.kind != "call":
+                continue
+            if callee(e.term) in _PURE_ITER or matched_set_add(jm, e):
+                continue
+            other += 1
+    return {"appends": facts, "other_effects": other, "n_bucket_loops": len(jm.matched_loops)}
 
 
-def siblings(ctx, facts: Dict[str, JoinFacts]) -> None:
+def matched_block(jm: JoinModel):
+    return jm.it.loops[jm.matched_loops[0]].node if jm.matched_loops else None
+
+
+def siblings(ctx, facts: Dict[str, JoinModel]) -> None:
     if "inner_join" not in facts:
         raise AnalysisError("sibling comparison needs inner_join's facts")
     ref = matched_facts(facts["inner_join"])
     if ref is None:
         raise AnalysisError("inner_join: matched emission block not found")
-    for v, jf in facts.items():
+    for v, jm in facts.items():
         if v == "inner_join":
             continue
-        mf = matched_facts(jf)
-        ctx.ob("h.siblings", jf.f, "matched-block", mf == ref, f"{v}: matched emission facts equal inner_join's: {mf}",
-               matched_block(jf) or jf.f.node,
+        mf = matched_facts(jm)
+        ctx.ob("h.siblings", jm.f, "matched-block", mf == ref, f"{v}: matched emission facts equal inner_join's: {mf}",
+               matched_block(jm) or jm.f.node,
                message=f"{v}: the matched-pair emission differs from inner_join's (inner ⊆ left ⊆ full is no longer "
                        f"structural): inner_join {ref} vs {v} {mf}")
 
 
-def no_early_result(ctx, jf: JoinFacts, rule: str) -> None:
-    """Every `return` of a join comes after the probe loop (and the sweep): no fast path can bypass emission, padding
-    or the cardinality checks that live in the loops."""
-    from ..cfg import cfg_of
-    f = jf.f
-    cfg = cfg_of(f)
-    probe = cfg.node_of(jf.probe_loop)
-    after = [probe] + ([cfg.node_of(jf.sweep_loop)] if jf.sweep_loop is not None else []) + [cfg.node_of(jf.index_loop)]
+def no_early_result(ctx, jm: JoinModel, rule: str) -> None:
+    """Every `return` of a join comes after the index and probe loops (and the sweep): no fast path can bypass emission,
+    padding or the cardinality checks that live in the loops."""
+    f, it = jm.f, jm.it
     problems = []
-    for n in cfg.stmt_nodes():
-        if isinstance(n.ast, ast.Return) and cfg.is_reachable(n):
-            for lp in after:
-                inside = any(x is n.ast for x in walk_stmts(lp.ast.body))
-                if inside or not cfg.dominates(lp, n):
-                    problems.append((f"`{short(n.ast, 60)}` (line {n.lineno}) can return without running the "
-                                     f"{'probe' if lp is probe else 'index' if lp is after[-1] else 'sweep'} loop to completion: rows, None "
-                                     f"padding and the uniqueness checks performed there are bypassed", n.ast))
-                    break
-    ctx.ob(rule, f, "returns", not problems, f"{jf.variant}: every return follows the index, probe (and sweep) loops",
-           problems[0][1] if problems else f.node, message=f"{jf.variant}: " + "; ".join(p for p, _ in problems[:2]))
+    named = [(jm.index_loop, "index"), (jm.probe_loop, "probe")] + ([(jm.sweep_loop, "sweep")] if jm.sweep_loop is not None else [])
+    for L, nm in named:
+        if it.loops[L].returns:
+            problems.append((f"a `return` inside the {nm} loop ends the join before all rows are processed", it.loops[L].node))
+    last = {nm: max((e.seq for e in jm.events_in(L)), default=0) for L, nm in named}
+    for e in it.events:
+        if e.kind != "return" or e.depth != 0:
+            continue
+        for L, nm in named:
+            if L in e.loops:
+                break
+            if e.seq < last[nm]:
+                problems.append((f"`return {jm.sh(e.term)[:50]}` (line {e.node.lineno}) can return without running the {nm} loop: rows, None "
+                                 f"padding and the uniqueness checks performed there are bypassed", e.node))
+                break
+    ctx.ob(rule, f, "returns", not problems, f"{jm.variant}: every return follows the index, probe (and sweep) loops",
+           problems[0][1] if problems else f.node, message=f"{jm.variant}: " + "; ".join(p for p, _ in problems[:2]))
 
 
 # --------------------------------------------------------------------------- C10
-def left_complete(ctx, jf: JoinFacts) -> None:
+def left_complete(ctx, jm: JoinModel) -> None:
     """C10.a: every left row emits at least one result row, at its own position."""
-    f = jf.f
+    f, it = jm.f, jm.it
     problems: List[Tuple[str, ast.AST]] = []
-    buckets = jf.bucket_vars()
-    for s in walk_stmts(jf.probe_loop.body):
-        if isinstance(s, (ast.Continue, ast.Break, ast.Return)):
-            problems.append((f"`{type(s).__name__.lower()}` in the probe loop: a left row (or all later ones) can be "
-                             f"dropped without emitting", s))
-    # the split: `if <bucket>:` matched block else unmatched block, direct child of the probe loop body
-    split = None
-    for s in jf.probe_loop.body:
-        if isinstance(s, ast.If) and isinstance(s.test, ast.Name) and s.test.id in buckets:
-            split = s
-    if split is None:
-        problems.append(("the probe loop body has no `if <bucket>: ... else: ...` split directly in the loop body", jf.probe_loop))
-    else:
-        mb = [s for s in split.body if isinstance(s, ast.For) and isinstance(s.iter, ast.Name) and s.iter.id in buckets]
-        if len(mb) != 1:
-            problems.append(("the matched branch does not emit once per bucket element", split))
-        if not split.orelse:
-            problems.append(("no else branch: an unmatched left row emits nothing", split))
-        # both branches must contain LEFT appends (checked by padding/buffers); here: nothing in the branches is conditional
-        for s in walk_stmts(split.orelse):
-            if isinstance(s, (ast.If, ast.While, ast.Try)):
-                problems.append((f"padding of an unmatched left row is conditional on `{short(getattr(s, 'test', s), 50)}`", s))
+    pl = it.loops[jm.probe_loop]
+    if pl.breaks or pl.returns:
+        problems.append(("break/return in the probe loop: a left row (or all later ones) can be dropped without emitting", pl.node))
+    ems = jm.emissions()
+    m = [a for a in ems if a.context == "matched"]
+    u = [a for a in ems if a.context == "unmatched-left"]
+    if not m:
+        problems.append(("no emission once per bucket element (matched pairs)", pl.node))
+    if not u:
+        problems.append(("an unmatched left row emits nothing: no padded row is written when the key has no bucket", pl.node))
+    for a in m:
+        cs = _probe_conds(jm, a)
+        bad = [c for c in cs if not jm.is_bucket_nonempty_test(c)]
+        if bad:
+            problems.append((f"matched pairs of a left row are emitted only under `{show_conds(bad, it)[:80]}`: the row can be dropped "
+                             f"without emitting", a.node))
+    for a in u:
+        if a.extra:
+            problems.append((f"padding of an unmatched left row is conditional on `{show_conds(a.extra, it)[:80]}`: the row can be "
+                             f"dropped without emitting", a.node))
+        if not a.depth_ok:
+            problems.append(("the padded row is not written directly in the probe iteration (once per unmatched left row)", a.node))
+    seen = set()
+    problems = [p for p in problems if not (p[0] in seen or seen.add(p[0]))]
     ctx.ob("a.left-complete", f, "left-rows", not problems,
-           f"{jf.variant}: every probe iteration emits (matched: once per bucket element; unmatched: one padded row)",
-           problems[0][1] if problems else f.node, message=f"{jf.variant}: " + "; ".join(p for p, _ in problems))
+           f"{jm.variant}: every probe iteration emits (matched: once per bucket element; unmatched: one padded row)",
+           problems[0][1] if problems else f.node, message=f"{jm.variant}: " + "; ".join(p for p, _ in problems))
 
 
-def padding(ctx, jf: JoinFacts) -> None:
+def padding(ctx, jm: JoinModel) -> None:
     """C10.b: unmatched-left rows: LEFT <- left row values, RIGHT <- None once per right column."""
-    f = jf.f
+    f, it = jm.f, jm.it
     problems: List[Tuple[str, ast.AST]] = []
-    apps = [a for a in jf.appends() if a.context == "unmatched-left"]
-    lefts = [a for a in apps if a.buf_side == "LEFT"]
-    rights = [a for a in apps if a.buf_side == "RIGHT"]
+    apps = [a for a in jm.emissions() if a.context == "unmatched-left"]
+    lefts = [a for a in apps if a.block == "LEFT"]
+    rights = [a for a in apps if a.block == "RIGHT"]
     if len(lefts) != 1 or len(rights) != 1 or len(apps) != 2:
-        problems.append((f"unmatched-left block has {len(lefts)} LEFT and {len(rights)} RIGHT append site(s) "
-                         f"({len(apps)} total); expected exactly one of each", (apps[0].node if apps else jf.probe_loop)))
+        problems.append((f"unmatched-left block has {len(lefts)} LEFT and {len(rights)} RIGHT fill(s) "
+                         f"({len(apps)} total); expected exactly one of each over all columns of its side", (apps[0].node if apps else jm.loop_node(jm.probe_loop))))
     for a in lefts:
-        if a.value_kind != "LEFT-ROW" or a.loop_domain != "LEFT-COLS":
-            problems.append((f"unmatched left row: LEFT buffers receive {a.value_kind} ({a.value_detail}) over {a.loop_domain}; "
+        if a.value != "LEFT-ROW":
+            problems.append((f"unmatched left row: LEFT buffers receive {a.value} ({a.value_detail}); "
                              f"must be the left row's own values over all left columns", a.node))
     for a in rights:
-        if a.value_kind != "NONE" or a.loop_domain != "RIGHT-COLS":
-            problems.append((f"unmatched left row: RIGHT buffers receive {a.value_kind} ({a.value_detail}) over {a.loop_domain}; "
+        if a.value != "NONE":
+            problems.append((f"unmatched left row: RIGHT buffers receive {a.value} ({a.value_detail}); "
                              f"must be None once per right column", a.node))
-    ctx.ob("b.padding", f, "unmatched-left", not problems, f"{jf.variant}: unmatched left row = left values + None per right column",
-           problems[0][1] if problems else f.node, message=f"{jf.variant}: " + "; ".join(p for p, _ in problems))
+    ctx.ob("b.padding", f, "unmatched-left", not problems, f"{jm.variant}: unmatched left row = left values + None per right column",
+           problems[0][1] if problems else f.node, message=f"{jm.variant}: " + "; ".join(p for p, _ in problems))
 
 
-def sweep(ctx, jf: JoinFacts) -> None:
+def sweep(ctx, jm: JoinModel) -> None:
     """C10.c: full join appends every right row that matched nothing, in right-table order."""
-    f = jf.f
+    f, it = jm.f, jm.it
     problems: List[Tuple[str, ast.AST]] = []
-    d = jf.defs
-    # matched set
-    sets = [n for n, lst in d.assigns.items() if any(
-        how == "assign" and isinstance(v, ast.Call) and isinstance(v.func, ast.Name) and v.func.id == "set" and not v.args
-        for v, _, how in lst)]
-    mb = matched_block(jf)
-    bucket_var = mb.target.id if (mb is not None and isinstance(mb.target, ast.Name)) else None
-    matched_set = None
-    add_names: Set[str] = set()
-    for sname in sets:
-        aliases = {f"{sname}.add"} | {n for n, lst in d.assigns.items()
-                                      if any(how == "assign" and attr_chain(v) == [sname, "add"] for v, _, how in lst if v is not None)}
-        if mb is not None:
-            for s in mb.body:
-                if isinstance(s, ast.Expr) and isinstance(s.value, ast.Call) and _callee(s.value) in aliases \
-                        and len(s.value.args) == 1 and isinstance(s.value.args[0], ast.Name) \
-                        and s.value.args[0].id == bucket_var:
-                    matched_set, add_names = sname, aliases
-    if matched_set is None:
+    adds = [e for e in it.events if matched_set_add(jm, e)]
+    msets = {e.term[1][1] for e in adds}
+    M = None
+    if len(msets) != 1:
         problems.append(("no set records the right row of every emitted pair (an `add(right_idx)` directly in the "
-                         "matched emission loop)", mb or jf.probe_loop))
-    if jf.sweep_loop is None:
-        problems.append(("no sweep loop over the right rows after the probe loop", f.node))
-    if matched_set is not None and jf.sweep_loop is not None:
-        # other writes to the matched set
-        for n in walk_no_nested(f.node):
-            if isinstance(n, ast.Call) and _callee(n) in add_names:
-                if mb is None or not any(x is n for x in walk_no_nested(mb)):
-                    problems.append(("a right row is marked as matched outside the matched emission loop", n))
-            if isinstance(n, ast.Call) and isinstance(n.func, ast.Attribute) and attr_chain(n.func.value) == [matched_set] \
-                    and n.func.attr not in ("add",):
-                problems.append((f"the matched set is modified by .{n.func.attr}()", n))
-        sl = jf.sweep_loop
-        if jf.loop_range_of(sl) != "RIGHT-ROWS":
-            problems.append((f"the sweep ranges over `{short(sl.iter)}`, not range(len({jf.p_other})): unmatched right rows "
-                             f"would not come out in right-table order (or not all of them)", sl))
-        sv = sl.target.id if isinstance(sl.target, ast.Name) else None
-        if not (len(sl.body) == 1 and isinstance(sl.body[0], ast.If) and not sl.body[0].orelse):
-            problems.append(("the sweep body is not a single `if row not in matched:` block", sl))
-        else:
-            t = sl.body[0].test
-            if not (isinstance(t, ast.Compare) and len(t.ops) == 1 and isinstance(t.ops[0], ast.NotIn)
-                    and isinstance(t.left, ast.Name) and t.left.id == sv and isinstance(t.comparators[0], ast.Name)
-                    and t.comparators[0].id == matched_set):
-                problems.append((f"the sweep emits under `{short(t)}`, expected `{sv} not in {matched_set}`", sl.body[0]))
-        top = jf.top
-        if top.index(sl) < top.index(jf.probe_loop):
-            problems.append(("the sweep runs before the probe loop", sl))
-        apps = [a for a in jf.appends() if a.context == "sweep"]
-        lefts = [a for a in apps if a.buf_side == "LEFT"]
-        rights = [a for a in apps if a.buf_side == "RIGHT"]
+                         "matched emission loop)", matched_block(jm) or jm.loop_node(jm.probe_loop)))
+    else:
+        M = msets.pop()
+        for e in adds:
+            row_loop = e.term[2][0][2]
+            if e.conds[len(it.loops[row_loop].conds):] or e.loops[-1] != row_loop:
+                problems.append(("the right row of an emitted pair is recorded only conditionally", e.node))
+        for e in it.events:
+            if e.kind == "call" and e.term[1][0] == "attr" and e.term[1][1] == M and not matched_set_add(jm, e) \
+                    and e.term[1][2] not in ("__contains__", "__len__", "copy"):
+                problems.append((f"the matched set is modified by .{e.term[1][2]}({jm.sh(e.term[2][0])[:30] if e.term[2] else ''}) "
+                                 f"outside the per-pair record", e.node))
+    if jm.sweep_loop is None:
+        problems.append(("no sweep loop over the right rows (range(len(other))) that writes result rows after the probe loop", f.node))
+    if M is not None and jm.sweep_loop is not None:
+        sl = it.loops[jm.sweep_loop]
+        if not _is_row_scan(jm, sl.id, "R"):
+            problems.append((f"the sweep ranges over `{jm.sh(sl.iter)}`, not range(len({jm.p[1]})): unmatched right rows "
+                             f"would not come out in right-table order (or not all of them)", sl.node))
+        sweep_events = jm.events_in(sl.id)
+        probe_events = jm.events_in(jm.probe_loop)
+        if sweep_events and probe_events and min(e.seq for e in sweep_events) < max(e.seq for e in probe_events):
+            problems.append(("the sweep runs before the probe loop", sl.node))
+        if sl.breaks or sl.returns:
+            problems.append(("break/return in the sweep: later unmatched right rows are dropped", sl.node))
+        want = ((("cmp", "In", ("idx", sl.id), M), False),)
+        apps = [a for a in jm.emissions() if a.context == "sweep"]
+        for a in apps:
+            if tuple(a.extra) != want:
+                problems.append((f"the sweep emits under `{show_conds(a.extra, it)[:80]}`, expected exactly `row not in <matched set>`", a.node))
+            if not a.depth_ok:
+                problems.append(("the swept row is not written directly in the sweep iteration", a.node))
+        lefts = [a for a in apps if a.block == "LEFT"]
+        rights = [a for a in apps if a.block == "RIGHT"]
         if len(lefts) != 1 or len(rights) != 1 or len(apps) != 2:
-            problems.append((f"sweep block has {len(lefts)} LEFT / {len(rights)} RIGHT append site(s), expected one of each",
-                             apps[0].node if apps else sl))
+            problems.append((f"sweep block has {len(lefts)} LEFT / {len(rights)} RIGHT fill(s), expected one of each",
+                             apps[0].node if apps else sl.node))
         for a in lefts:
-            if a.value_kind != "NONE" or a.loop_domain != "LEFT-COLS":
-                problems.append((f"sweep: LEFT buffers receive {a.value_kind} over {a.loop_domain}; must be None once per left column", a.node))
+            if a.value != "NONE":
+                problems.append((f"sweep: LEFT buffers receive {a.value} ({a.value_detail}); must be None once per left column", a.node))
         for a in rights:
-            if a.value_kind != "RIGHT-ROW" or a.loop_domain != "RIGHT-COLS":
-                problems.append((f"sweep: RIGHT buffers receive {a.value_kind} ({a.value_detail}) over {a.loop_domain}; must be "
+            if a.value != "RIGHT-ROW":
+                problems.append((f"sweep: RIGHT buffers receive {a.value} ({a.value_detail}); must be "
                                  f"the swept right row's values over all right columns", a.node))
+    seen = set()
+    problems = [p for p in problems if not (p[0] in seen or seen.add(p[0]))]
     ctx.ob("c.sweep", f, "sweep", not problems, "full_join: matched right rows recorded per emitted pair; sweep over all right "
            "rows in order emits exactly the unrecorded ones with None in every left column",
            problems[0][1] if problems else f.node, message="full_join: " + "; ".join(p for p, _ in problems))
